@@ -26,7 +26,7 @@ NEW = [
   "what": "DROP SERIES is acknowledged as soon as the series ids are in the MEMORY of the policy's deleted-set table (MergeSetIndex.WriteDeleteTsids -> mergeset Table.AddItems); the table writes its pending items out on a 1 s ticker (rawItemsFlushInterval, up to ~2 s). A kill (SIGKILL, power loss) inside that window loses the record: after the start every series the statement dropped is back, with all its rows, in every read shape and listing. There is no log the record could be replayed from (the rows themselves were flushed by the statement). A clean stop writes the table out.",
   "signature": "DropSeries directly followed by RestartKill (the replay issues the statement milliseconds before the SIGKILL): the as-implemented world is the one BEFORE the statement; real answers == its shapes. Elsewhere the replay kills no sooner than 3 s after the last DROP SERIES.",
   "example": "write n,host=a and n,host=b; flush; drop series from n where host != 'c' -> 200; SIGKILL at once; start: select * from n returns both rows again, show series lists both series (with >= 0.3 s between acknowledgement and kill the drop held in the probe)",
-  "fix_candidate": "selftest/fixes/c13-drop-series-durable.diff (WriteDeleteTsids flushes the deleted-set table before it returns)"},
+  "fix_candidate": "none offered: flushing the deleted-set table inside WriteDeleteTsids (idx.tb.DebugFlush() after AddItems) closes the window, but with it the tests of app/ts-store/transport/handler panic in a background part merge of that table after a test has removed its directory (tools/fixcheck.py: 34 stable tests lost); a repair needs the statement to wait for the table's flush without leaving extra parts to merge, or a log for the deleted set"},
  {"id": "F-C13-14", "property": "C13", "status": "open",
   "deviation": "none in DropSem.tla: attributed by predicate (read shapes prom / promb)",
   "what": "A PromQL selector that matches SEVERAL series (GET /api/v1/query?query=m[540s], m{host=~\"a|b|c\"}[540s], the instant query m, query_range) sometimes returns only part of the live series of the measurement - in the cases seen only the series written last - while selectors matching one series (m{host=\"c\"}[540s]), /api/v1/series and every InfluxQL selection return all of them at the same moment; count(m) is sometimes right, sometimes not. The state lasts until the next memtable flush. Seen in behaviours with a SIGKILL restart followed by a write of a new series with an older timestamp (replays/C13-6d3b4ef9471c.json reproduces it in about two of three runs); not reproduced by a hand-made sequence, root cause not found. It never returns dropped data; a PromQL read-path matter (C18) recorded here because the C13 matrix reads the measurement through the Prometheus API. Consequence for C13: the PromQL route is judged for what it returns (only live samples, right values); an incomplete answer is attributed to this entry.",
